@@ -520,22 +520,52 @@ func runRun1(m map[string]string) string {
 				c.Call = "target.TargetService.NoSuchMethod"
 			case "badpayload":
 				c.Payload = `{"no_such_field": 1}`
+			case "list":
+				// the List method answers with a list of f[2] items (grpctarget.go: x-list)
+				c.Call = "target.TargetService.List"
+				c.Payload = `{"token": "t", "user_id": 1}`
+				c.Metadata = map[string]string{"x-list": f[2]}
 			default:
 				c.Metadata, _ = grpcKindMeta(f[1], f[2])
 			}
-			if strings.HasSuffix(f[3], "U") && i > 0 && f[1] != "badpayload" {
-				// the payload uses a field of the PREVIOUS call's response message (absent when that call failed or
-				// answered with a foreign message)
-				c.Payload = fmt.Sprintf(`{"name": "v{{.request.c%d.postprocessor.hello}}"}`, i-1)
-			}
-			f[3] = strings.TrimSuffix(strings.TrimSuffix(f[3], "U"), "+")
-			if strings.HasPrefix(f[3], "as") {
-				g := strings.SplitN(f[3][2:], ":", 2)
-				pp := fmt.Sprintf("postprocessor \"assert/response\" {\n    status_code = %s\n", g[0])
-				if len(g) > 1 {
-					pp += fmt.Sprintf("    payload = [%s]\n", shot.HCLString(unhx(g[1])))
+			for _, tok := range strings.Split(f[3], "+") {
+				switch {
+				case tok == "-" || tok == "":
+				case tok == "U":
+					if i > 0 && f[1] != "badpayload" && f[1] != "list" {
+						// the payload uses a field of the PREVIOUS call's response message (absent when that call failed or
+						// answered with a foreign message)
+						c.Payload = fmt.Sprintf(`{"name": "v{{.request.c%d.postprocessor.hello}}"}`, i-1)
+					}
+				case strings.HasPrefix(tok, "as"):
+					g := strings.SplitN(tok[2:], ":", 2)
+					pp := fmt.Sprintf("postprocessor \"assert/response\" {\n    status_code = %s\n", g[0])
+					if len(g) > 1 {
+						pp += fmt.Sprintf("    payload = [%s]\n", shot.HCLString(unhx(g[1])))
+					}
+					c.PP = append(c.PP, pp+"  }")
+				case strings.HasPrefix(tok, "Pg~"):
+					// Pg~<src call>~<field>~<index field>[~sub]: a preprocessor reads a field of an earlier RESPONSE message
+					g := strings.Split(tok, "~")
+					mapping := "request.c" + g[1] + ".postprocessor." + g[2]
+					if g[3] != "-" {
+						mapping += "[" + unhx(g[3][1:]) + "]"
+					}
+					if len(g) > 4 {
+						mapping += "." + g[4]
+					}
+					c.PP = append(c.PP, fmt.Sprintf("preprocessor \"prepare\" {\n    mapping = {\n      x = %s\n    }\n  }", shot.HCLString(mapping)))
+					if f[1] != "badpayload" && f[1] != "list" {
+						c.Payload = fmt.Sprintf(`{"name": "v{{.request.c%d.preprocessor.x}}"}`, i)
+					}
+				case strings.HasPrefix(tok, "Fg~"):
+					// Fg~<fn>~<src call>~<field>: a template function on a field of an earlier response message
+					g := strings.Split(tok, "~")
+					c.PP = append(c.PP, fmt.Sprintf("preprocessor \"prepare\" {\n    mapping = {\n      x = %s\n    }\n  }",
+						shot.HCLString(fmt.Sprintf(tplFuncSpelling[g[1]], "request.c"+g[2]+".postprocessor."+g[3]))))
+				default:
+					panic("bad call token " + tok)
 				}
-				c.PP = []string{pp + "  }"}
 			}
 			calls = append(calls, c)
 		}
